@@ -241,3 +241,24 @@ package ice
 //@   site call filterForLocationTracking#1 ghost tracked := result
 //@   site call filterForLocationTracking#1 ghost asked := recv.payload
 //@   site call append#1 assert location-tracked-candidates-are-never-listed: !tracked && len(arg1) == 1 && arg1[0].payload == asked
+
+// Active TCP: for a remote passive TCP candidate the agent dials from every local address accepted by the
+// configured filters (for the remote's network type only), and each dialled connection is either closed
+// again or owned by exactly the started active host candidate that is announced and paired with that remote.
+//@ func (*Agent).addRemotePassiveTCPCandidate
+//@   props C18 C09 C06
+//@   opt nosafety
+//@   ghostvar pending int = 0
+//@   site call localInterfaces#1 assert scans-with-the-configured-filters: arg1 == a.interfaceFilter && arg2 == a.ipFilter && arg4 == a.includeLoopback && len(arg3) == 1
+//@   site call newActiveTCPConn#1 ghost pending := 1
+//@   site call closeConnAndLog#0 assert C09 closes-the-connection-it-just-dialled: pending == 1 && arg0.payload == conn
+//@   site call closeConnAndLog#0 ghost pending := 0
+//@   site call NewCandidateHost#1 assert C18 an-active-tcp-host-candidate-on-the-dialling-address: arg0.TCPType == TCPTypeActive && arg0.Component == ComponentRTP
+//@   site call start#1 assert C09 the-candidate-owns-the-connection-it-was-dialled-for: pending == 1 && arg1 == a && arg2.payload == conn
+//@   site call start#1 ghost pending := 0
+//@   site call EnqueueCandidate#1 assert announces-the-started-candidate: arg1.payload == localCandidate
+//@   requires C06 a.pairsByID != nil
+//@   site call addPair#1 assume id-space-not-exhausted: a.nextPairID < 18446744073709551615
+//@   loop 1 invariant C06 the-pair-index-exists: a.pairsByID != nil
+//@   site call addPair#1 assert C06 pairs-it-with-the-remote-that-caused-it: arg1.payload == localCandidate && arg2 == remoteCandidate
+//@   loop 1 invariant C09 every-dialled-connection-is-closed-or-owned: pending == 0
